@@ -5,7 +5,7 @@
    termination inside CPython's ast, docutils, astor, twisted, lunr (DESIGN.md 5.C01 residual). *)
 From Coq Require Import ZArith NArith List Bool.
 From PydoctorVerif Require Import Base.Sexp Model.Proc Model.Barrier Gen.Skeleton
-     Proofs.ProcProofs Proofs.BarrierProofs.
+     Proofs.ProcProofs Proofs.BarrierProofs Model.ProcIR Gen.ProcCode Proofs.ProcIRProofs.
 Import ListNotations.
 
 (* The work-list machine, for EVERY project (import cycles, self-imports, unknown targets, unparsable
@@ -23,6 +23,34 @@ Theorem C01_process_total :
                             (* entered / left / reported exactly once, never both *)
                             counts m (trace s') = if parse_ok i then (1, 1, 0) else (0, 0, 1)).
 Proof. exact run_project_total. Qed.
+
+(* ---- the tie to the source, as theorems ---------------------------------------------------------------------
+   Gen/ProcCode.v holds the bodies of System.processModule / getProcessedModule / process translated statement by
+   statement from /repo's CURRENT pydoctor/model.py (harness/gen/gen_c01_code.py, fail-closed, rerun on every check)
+   into the statement language of Model/ProcIR.v.  Interpreting THAT code is the machine above: same final state,
+   or both out of fuel, or both a failed assertion -- for every project whose modules have a source path or a source
+   string (wf), every state, module and fuel; C extension modules count as parseable modules without imports. *)
+Theorem C01_code_process_module_is_model :
+  forall (p : project') (other : N -> bool), wf p ->
+    forall fuel s m, same_outcome (pm_ir proc_code p other fuel s m) (process_module (erase p) fuel s m).
+Proof. exact pm_ir_eq. Qed.
+
+Theorem C01_code_process_is_model :
+  forall (p : project') (other : N -> bool), wf p ->
+    forall order, same_outcome (run_project_ir proc_code p other order) (run_project (erase p) order).
+Proof. exact run_project_ir_eq. Qed.
+
+(* hence C01_process_total, stated on the translated code *)
+Theorem C01_code_process_total :
+  forall (p : project') (other : N -> bool) (order : list N),
+    wf p -> NoDup order -> (forall m, In m order <-> lookup' p m <> None) ->
+    exists s', run_project_ir proc_code p other order = Ok s' /\ unproc s' = [] /\ stack s' = [] /\
+               NoDup (reports s') /\
+               (forall m i, lookup' p m = Some i ->
+                            st s' m = (if effective_ok i then PROCESSED else PROCESSING) /\
+                            (In m (reports s') <-> effective_ok i = false) /\
+                            counts m (trace s') = if effective_ok i then (1, 1, 0) else (0, 0, 1)).
+Proof. exact code_run_project_total. Qed.
 
 (* An unparsable file does not change the outcome of any other module. *)
 Theorem C01_bad_file_isolated :
